@@ -355,3 +355,21 @@ Section CheckIO.
   Definition bad_code (m : N) (ios : list (N * N)) : N :=
     match first_bad 0 m ios with None => 0 | Some k => N.succ k end.
 End CheckIO.
+
+(* correspondence of a typed hand model with recorded implementation traces:
+   code 0 = equal on the whole trace, k+1 = first differing cycle k (outputs compared after `norm`) *)
+Section Corr.
+  Context {St : Type}.
+  Variable mstep : St -> N -> St * N.
+  Variable norm : N -> N.
+  Fixpoint diff_at (k : N) (m : St) (ins outs : list N) : N :=
+    match ins, outs with
+    | i :: ti, o :: to =>
+        let (m', o') := mstep m i in
+        if N.eqb (norm o) (norm o') then diff_at (N.succ k) m' ti to else N.succ k
+    | [], [] => 0
+    | _, _ => N.succ k
+    end.
+  Definition corr_codes (m0 : St) (tin tout : list (list N)) : list N :=
+    map (fun p => diff_at 0 m0 (fst p) (snd p)) (combine tin tout).
+End Corr.
